@@ -418,6 +418,19 @@ def check_case(ctx, case):
                                              'after': repr(a0)[:120]})
         else:
             ctx.count('caller_mapping_mutated_after_estimate')
+    # ---- copies and unpickled copies of the estimate are the same estimate
+    if compared and temps and len(repr(case['mapping'])) % 3 == 0 and \
+            not case.get('aliases'):
+        from vmon.core import clones
+        o_c = observe(lib.Estimate, make_mapping(
+            lib, pairs, case.get('keyform', 'str')), 'thermochem')
+        if 'ok' in o_c:
+            calls = [('%s(%r)' % (nm, T), lambda e_, nm=nm, T=T: repr(float(
+                getattr(e_, nm)(T)))) for nm in PROPS
+                for T in (temps[0], temps[-1])]
+            calls.append(('get_range()', lambda e_: repr(e_.get_range())))
+            clones.agreement(ctx, case, o_c['ok'], calls, 'estimate',
+                             'before' if len(pairs) % 2 else 'after')
     if _contract['bad']:
         ctx.violation('estimator holds terms that are not one per key',
                       case, _contract['bad'][-1])
